@@ -643,6 +643,7 @@ def run(model, rep):
     rule_j(model, rep)
     rule_k(model, rep, table)
     rule_sha_field_languages(model, rep, table)
+    rule_pbkdf2_salt_entropy(model, rep)
     c04.rule_f(model, Renamed(rep, {"C04.f": "C20.g-libpass-context"}))
     c12.rule_copies(model, Renamed(rep, {"C12.g": "C20.h-libpass-copies"}))
     # the libpass pbkdf2 hashers read and write salt / digest through libpass' own copies of the base64 helpers: both families agree
@@ -695,3 +696,22 @@ def rule_sha_field_languages(model, rep, table):
               witness="SHA512Hasher().hash('pw', salt=b'line\\nbreak') returns a string with a newline in the salt field")
     if n < 2:
         rep.undecided(R, "<instance-count>", "sha-crypt record regexes not analysed")
+
+
+def rule_pbkdf2_salt_entropy(model, rep):
+    """the libpass pbkdf2 record regex requires a non-empty salt field: a hasher that could generate an empty salt (salt_entropy_bits <= 0)
+    would emit strings its own identify() / verify() refuse, so the constructor refuses that setting"""
+    R = "C20.d-hash-verify-agreement"
+    LP = "libpass.hashers.pbkdf2"
+    fn = model.func(LP, "PBKDF2SHAHandler.__init__")
+    guards = [g for g in walk_no_nested(fn) if isinstance(g, ast.If) and g.body and isinstance(g.body[-1], ast.Raise) and "ValueError" in ast.unparse(g.body[-1])
+              and isinstance(g.test, ast.Compare) and "salt_entropy_bits" in ast.unparse(g.test)]
+    ok = False
+    for g in guards:
+        t = g.test
+        if len(t.ops) == 1 and ast.unparse(t.left) == "salt_entropy_bits" and isinstance(t.comparators[0], ast.Constant):
+            k = t.comparators[0].value
+            ok = ok or (isinstance(t.ops[0], ast.Lt) and k == 1) or (isinstance(t.ops[0], ast.LtE) and k == 0)
+    rep.check(ok, R, site(LP, "PBKDF2SHAHandler.__init__") + " salt entropy", "; ".join(ast.unparse(g.test) for g in guards) or "salt_entropy_bits stored unchecked",
+              "the constructor refuses salt_entropy_bits < 1 (an empty generated salt cannot be read back by the record regex)",
+              witness="h = PBKDF2SHA256Handler(rounds=1000, salt_entropy_bits=0); x = h.hash('pw') is '$pbkdf2-sha256$1000$$...': h.identify(x) is False and h.verify(x, 'pw') is False (passlib verifies it)")
